@@ -95,7 +95,7 @@ BtMonos(P, H) == IF CompMonos(P, H) # {} THEN CompMonos(P, H) ELSE Monos(P, H)
 
 (* ------------------------------ orbits ---------------------------------- *)
 Orbit(G, v)  == {a[v] : a \in Autos(G)}
-Orbits(G)    == {Orbit(G, v) : v \in Nodes(G)}
+Orbits(G)    == LET A == Autos(G) IN {{a[v] : a \in A} : v \in Nodes(G)}     \* the group is enumerated once
 (* per component (component swaps excluded) *)
 SubOn(G, C)  ==   \* induced subgraph on node set C, renumbered increasingly
    LET idx == [k \in 1..Cardinality(C) |-> CHOOSE v \in C : Cardinality({u \in C : u < v}) = k - 1]
